@@ -122,8 +122,14 @@ func (w *lcWorld) logScript(code, c, a, b int) {
 // waitFor blocks until pred (evaluated under w.mu) holds; the timeout is generous and only guards
 // against a hung run (which is then reported, not silently passed)
 func (w *lcWorld) waitFor(what string, pred func() bool) bool {
-	deadline := time.Now().Add(20 * time.Second)
-	t := time.AfterFunc(20*time.Second+10*time.Millisecond, func() {
+	limit := 20 * time.Second
+	w.mu.Lock()
+	if len(w.failed) > 0 {
+		limit = 500 * time.Millisecond // the run has failed already: do not sit out every later wait in full
+	}
+	w.mu.Unlock()
+	deadline := time.Now().Add(limit)
+	t := time.AfterFunc(limit+10*time.Millisecond, func() {
 		w.mu.Lock()
 		w.cond.Broadcast()
 		w.mu.Unlock()
